@@ -545,6 +545,16 @@ class _Formatter:
         if ct == COMMENT:
             return "  "
 
+        # Subprocess statement, outside any brackets: white space is what
+        # separates arguments, so the Python punctuation rules below must
+        # not apply — ``a,b`` / ``x:y`` / ``a==b`` are single arguments
+        # and ``a , b`` is three. Keep glued tokens glued and separated
+        # tokens separated (collapsed to one space).
+        if self._subproc_line and self._paren_depth == 0:
+            if prev.end[0] != cur.start[0]:
+                return " "
+            return " " if cur.start[1] > prev.end[1] else ""
+
         # Bracket adjacency: glue.
         if ps in _OPENERS:
             return ""
